@@ -148,7 +148,14 @@ func (p *pipe) receiver() {
 					// NB: If we ever do work to break
 					// up the locking, we will need to
 					// revisit this.
-					c.recvQ <- m
+					// With a zero length queue there is no
+					// room even now, and we hold the socket
+					// lock: never block here.
+					select {
+					case c.recvQ <- m:
+					default:
+						m.Free()
+					}
 				}
 			}
 		}
